@@ -32,6 +32,8 @@ GROW_SHRINK = [
     "x = '\U0001f600'\n", "x=(1,\n2)\n", "x = [\n 1,\n 2,\n]\n", "def long_name(argument):\n    return argument+argument\n", "raise ValueError()\n",
     "1if 1else 1", "True if 0in x else False", "x=1if 1else'\u00e9\u00e9'", "1if 1else'\u00e9\u00e9\u00e9'", "x='" + '\u00e9' * 40 + "'\n", "print('" + '\u00fc\u00e9' * 30 + "')",
     "x=[1for a in b]", "x=0or 1\n",
+    # deeper than the minifier's recursive visitors can follow under the default recursion limit (the API raises RecursionError), and growing
+    "x=" + "+".join(["a"] * 300) + "\ny=1if 1else 1\n", "if a:\n pass\n" + "elif a:\n pass\n" * 700 + "y=1if 1else 1\n",
     "for i in range(10):\n    print(i)\n", "x=f'{a}'\n", "x=f'{a!r:>10}'", "lambda:0", "0", "pass", "...", "x=1;y=2", "if 1:\n\tpass\nelse:\n\tpass",
 ]
 ENCODINGS = [('utf-8', ''), ('utf-8-sig', ''), ('latin-1', '# -*- coding: latin-1 -*-\n'), ('cp1252', '# coding: cp1252\n'), ('shift_jis', '# coding=shift_jis\n'),
@@ -61,7 +63,8 @@ def bound(tier):
 
 
 def tasks(tier):
-    return [('tokens', tier, i, NPARTS) for i in range(NPARTS)] + [('encoded', i, 16) for i in range(16)] + [('subprocess', i, 8) for i in range(8)]
+    return ([('tokens', tier, i, NPARTS) for i in range(NPARTS)] + [('encoded', i, 16) for i in range(16)] + [('subprocess', i, 8) for i in range(8)] +
+            [('multi', i, 4) for i in range(4)])
 
 
 def api_bytes(src, flags):
@@ -122,7 +125,11 @@ def violation_for(src, flags, mode, force, scratch):
     kind, want = expected(src, flags, force)
     ctx = 'source %r flags %s mode %s override %r\n%r' % (src[:200], flags, mode, force, o)
     if kind == 'error':
-        return None, 'api-error'       # minify itself fails on a parseable source: C08's business
+        # minify itself fails on a parseable source (C08's business, e.g. RecursionError on a very deep expression); the size rule still holds
+        # for whatever the tool does with such a module: it may fail and write nothing, but never write more than it read
+        if written is not None and len(written) > len(src) and not force and written != PREVIOUS:
+            return ('output-larger-than-input', ctx + '\nwritten %d bytes for %d (the API raises %r for this source)' % (len(written), len(src), want)), 'api-error'
+        return None, 'api-error'
     if kind == 'nothing':
         if exit_ == 0:
             return ('invalid-source-exit-0', ctx), 'invalid'
@@ -170,6 +177,44 @@ def run_task(task):
                     for mode in MODES:
                         for force in (None, '', '1'):
                             one(res, src, flags, mode, force, scratch)
+        elif kind == 'multi':
+            # several modules in one --in-place run, some of them byte-identical: the size rule is per file, whatever was seen before
+            _, part, nparts = task
+            shrink = b"def long_function_name():\n    return None\n\n\nprint(long_function_name())\n"
+            n = 0
+            for prog in GROW_SHRINK:
+                src = prog.encode('utf-8')
+                for flags in FLAGSETS[:2]:
+                    a = api_bytes(src, flags)
+                    if not isinstance(a, bytes) or len(a) <= len(src):
+                        continue
+                    for layout in ([src, src], [src, src, src], [shrink, src, src], [src, shrink, src], [src + b'\n', src, src + b'\n']):
+                        n += 1
+                        if n % nparts != part:
+                            continue
+                        d = os.path.join(scratch, 'multi')
+                        shutil.rmtree(d, ignore_errors=True)
+                        os.makedirs(d)
+                        for i, data in enumerate(layout):
+                            with open(os.path.join(d, 'm%d.py' % i), 'wb') as f:
+                                f.write(data)
+                        for argv in ([d], [os.path.join(d, 'm%d.py' % i) for i in range(len(layout))]):
+                            for i, data in enumerate(layout):
+                                with open(os.path.join(d, 'm%d.py' % i), 'wb') as f:
+                                    f.write(data)
+                            o = clidrv.run(list(flags) + argv + ['--in-place'], b'', None)
+                            res.count('evaluations')
+                            res.count('distinct_nontrivial')
+                            res.count('class_multi')
+                            for i, data in enumerate(layout):
+                                now = open(os.path.join(d, 'm%d.py' % i), 'rb').read()
+                                ad = api_bytes(data, flags)
+                                want = ad if isinstance(ad, bytes) and len(ad) <= len(data) else data
+                                if len(now) > len(data) or now != want or o.exit != 0:
+                                    res.violation('output-larger-than-input:in-place-multi:%s' % ('identical' if layout.count(data) > 1 else 'other'),
+                                                  {'kind': 'multi', 'layout': [x.decode('latin-1') for x in layout], 'flags': flags, 'dir': argv == [d]},
+                                                  'files %r flags %s: m%d.py held %d bytes, now %d: %r (expected %r)\n%r' % (layout, flags, i, len(data), len(now), now[:120], want[:120], o))
+                                    break
         elif kind == 'subprocess':
             _, part, nparts = task
             n = 0
@@ -206,6 +251,23 @@ def one(res, src, flags, mode, force, scratch):
 def replay(case):
     scratch = tempfile.mkdtemp(prefix='verif-c14-', dir=os.environ.get('VERIF_SCRATCH', '/var/tmp'))
     try:
+        if case.get('kind') == 'multi':
+            layout = [x.encode('latin-1') for x in case['layout']]
+            d = os.path.join(scratch, 'multi')
+            os.makedirs(d)
+            for i, data in enumerate(layout):
+                with open(os.path.join(d, 'm%d.py' % i), 'wb') as f:
+                    f.write(data)
+            argv = [d] if case['dir'] else [os.path.join(d, 'm%d.py' % i) for i in range(len(layout))]
+            o = clidrv.run(list(case['flags']) + argv + ['--in-place'], b'', None)
+            for i, data in enumerate(layout):
+                now = open(os.path.join(d, 'm%d.py' % i), 'rb').read()
+                ad = api_bytes(data, case['flags'])
+                want = ad if isinstance(ad, bytes) and len(ad) <= len(data) else data
+                if len(now) > len(data) or now != want or o.exit != 0:
+                    return {'signature': 'output-larger-than-input:in-place-multi:%s' % ('identical' if layout.count(data) > 1 else 'other'),
+                            'detail': 'm%d.py held %d bytes, now %d' % (i, len(data), len(now))}
+            return None
         src = case['source'].encode('latin-1')
         if case['kind'] == 'subprocess':
             a = run_mode(src, [], case['mode'], case['force'], scratch, clidrv.run_subprocess)
